@@ -540,6 +540,27 @@ def functools_reduce(I, f, seq, *init):
     return acc
 
 
+def itertools_groupby(I, seq, key=None):
+    """itertools.groupby on a concrete sequence: consecutive runs of equal keys (Python semantics, not modelled: a library
+    function with a fixed meaning)"""
+    items = I.iterate(seq)
+    out, cur_k, cur = [], None, None
+    for it in items:
+        k = I.call(key, [it], {}) if key is not None else it
+        if cur is not None and I.truth(I.py_eq(k, cur_k)):
+            cur.append(it)
+        else:
+            cur_k, cur = k, [it]
+            out.append((k, cur))
+    return out
+
+
+def operator_itemgetter(I, *idx):
+    if len(idx) == 1:
+        return NativeFn("itemgetter", lambda I, x: I.getitem(x, idx[0]))
+    return NativeFn("itemgetter", lambda I, x: tuple(I.getitem(x, j) for j in idx))
+
+
 def operator_or(I, a, b):
     return I.binop("BitOr", a, b)
 
@@ -598,6 +619,8 @@ def install(I):
     e["jax.random.PRNGKey"] = random_key
     e["functools.reduce"] = functools_reduce
     e["operator.or_"] = operator_or
+    e["itertools.groupby"] = itertools_groupby
+    e["operator.itemgetter"] = operator_itemgetter
     e["jax.util.safe_map"] = safe_map
     e["typing.cast"] = typing_cast
     e["warnings.warn"] = noop
